@@ -993,3 +993,212 @@ func parseFailureSoft(fn *ssa.Function, call *ssa.Call, multi bool) (bool, strin
 	}
 	return false, "no test of the parser's error found"
 }
+
+// ruleSMulti: the in-order matching loop of OP_CHECKMULTISIG. The loop that contains the Verify call
+// carries four counters; their update pattern is the algorithm:
+//
+//	key index      starts at -1 and is incremented on every iteration (before any 'continue')
+//	keys left      is decremented on every iteration
+//	sig index      starts at 0 and is incremented only after a successful Verify
+//	sigs left      is decremented only after a successful Verify
+//
+// so a key is never reused for a later signature and signatures match keys in order. The key and the
+// signature handed to Verify are pubKeys[key index] and signatures[sig index]; running out of keys
+// (sigs left > keys left) ends the loop with success = false.
+func ruleSMulti(c *Ctx) {
+	fn := c.P.Func("bscript/interpreter", "", "opcodeCheckMultiSig")
+	if fn == nil {
+		c.Undecided("S-multi", "opcodeCheckMultiSig", token.NoPos, "not found")
+		return
+	}
+	var vf *ssa.Call
+	for _, b := range fn.Blocks {
+		for _, ins := range b.Instrs {
+			if call, ok := ins.(*ssa.Call); ok {
+				if sc := call.Call.StaticCallee(); sc != nil && sc.Name() == "Verify" {
+					vf = call
+				}
+			}
+		}
+	}
+	if vf == nil {
+		c.Undecided("S-multi", "opcodeCheckMultiSig/loop", fn.Pos(), "no Verify call in the handler (matching loop moved elsewhere: not recognised)")
+		return
+	}
+	var header *ssa.BasicBlock
+	for x := vf.Block(); x != nil; x = x.Idom() {
+		if isLoopHeader(x) {
+			header = x
+			break
+		}
+	}
+	if header == nil {
+		c.Fail("S-multi", "opcodeCheckMultiSig/loop", vf.Pos(), "signature verification is not inside the key-matching loop")
+		return
+	}
+	// the Verify-true block
+	var okBlock *ssa.BasicBlock
+	if vf.Referrers() != nil {
+		for _, r := range *vf.Referrers() {
+			if iff, isIf := r.(*ssa.If); isIf && iff.Cond == ssa.Value(vf) {
+				okBlock = iff.Block().Succs[0]
+			}
+		}
+	}
+	type counter struct {
+		ph       *ssa.Phi
+		start    string
+		uncond   bool // every back edge carries phi+step
+		onVerify bool // changes only in the Verify-true block
+		step     int64
+	}
+	var counters []counter
+	for _, ins := range header.Instrs {
+		ph, isPhi := ins.(*ssa.Phi)
+		if !isPhi {
+			break
+		}
+		if b, isB := ph.Type().Underlying().(*types.Basic); !isB || b.Info()&types.IsInteger == 0 {
+			continue
+		}
+		ct := counter{ph: ph, uncond: true, onVerify: true}
+		changed := 0
+		for i, p := range header.Preds {
+			e := ph.Edges[i]
+			if !header.Dominates(p) {
+				ct.start = canonTerm(newTermEnv().Term(e))
+				continue
+			}
+			if e == ssa.Value(ph) {
+				ct.uncond = false
+				continue
+			}
+			bo, isBo := e.(*ssa.BinOp)
+			if !isBo || bo.X != ssa.Value(ph) {
+				ct.uncond, ct.onVerify = false, false
+				continue
+			}
+			k, isK := constInt(bo.Y)
+			if !isK || k.Int64() != 1 || (bo.Op != token.ADD && bo.Op != token.SUB) {
+				ct.uncond, ct.onVerify = false, false
+				continue
+			}
+			ct.step = 1
+			if bo.Op == token.SUB {
+				ct.step = -1
+			}
+			changed++
+			if okBlock == nil || !okBlock.Dominates(bo.Block()) {
+				ct.onVerify = false
+			}
+		}
+		if changed == 0 {
+			continue
+		}
+		if ct.uncond {
+			ct.onVerify = false
+		}
+		counters = append(counters, ct)
+	}
+	var keyIdx, sigIdx, keysLeft, sigsLeft *counter
+	for i := range counters {
+		ct := &counters[i]
+		switch {
+		case ct.uncond && ct.step == 1 && ct.start == "-1":
+			keyIdx = ct
+		case ct.uncond && ct.step == -1:
+			keysLeft = ct
+		case ct.onVerify && ct.step == 1 && ct.start == "0":
+			sigIdx = ct
+		case ct.onVerify && ct.step == -1:
+			sigsLeft = ct
+		}
+	}
+	desc := func() string {
+		var ss []string
+		for _, ct := range counters {
+			ss = append(ss, fmt.Sprintf("%s: start %s step %+d every-iteration=%v only-after-verify=%v", ct.ph.Comment, ct.start, ct.step, ct.uncond, ct.onVerify))
+		}
+		return strings.Join(ss, "; ")
+	}
+	c.Check(keyIdx != nil && keysLeft != nil && sigIdx != nil && sigsLeft != nil && len(counters) == 4, "S-multi", "opcodeCheckMultiSig/counters", header.Instrs[0].Pos(),
+		"key index and keys-left advance on every iteration; signature index and signatures-left only after a successful Verify: "+desc(),
+		"the key-matching loop no longer advances the key on every iteration and the signature only after a successful verification (a key could satisfy two signatures, or order is not enforced): "+desc())
+	if keyIdx == nil || sigIdx == nil || keysLeft == nil || sigsLeft == nil {
+		return
+	}
+	// the key and signature verified are indexed by those counters (+1: the key index is incremented first)
+	usedKey, usedSig := false, false
+	for _, b := range fn.Blocks {
+		if !header.Dominates(b) {
+			continue
+		}
+		for _, ins := range b.Instrs {
+			ia, ok := ins.(*ssa.IndexAddr)
+			if !ok {
+				continue
+			}
+			if bo, isBo := ia.Index.(*ssa.BinOp); isBo && bo.Op == token.ADD && bo.X == ssa.Value(keyIdx.ph) {
+				usedKey = true
+			}
+			if ia.Index == ssa.Value(sigIdx.ph) {
+				usedSig = true
+			}
+		}
+	}
+	c.Check(usedKey && usedSig, "S-multi", "opcodeCheckMultiSig/indexing", header.Instrs[0].Pos(), "the pair tried is pubKeys[key index], signatures[signature index]", "the key or signature tried is not selected by the loop's key / signature index")
+	// running out of keys: sigs left > keys left (after the decrement) -> success=false and leave
+	okExit := false
+	for _, b := range fn.Blocks {
+		iff, ok := b.Instrs[len(b.Instrs)-1].(*ssa.If)
+		if !ok || !header.Dominates(b) {
+			continue
+		}
+		bo, ok := iff.Cond.(*ssa.BinOp)
+		if !ok || bo.Op != token.GTR || bo.X != ssa.Value(sigsLeft.ph) {
+			continue
+		}
+		if dec, isDec := bo.Y.(*ssa.BinOp); isDec && dec.Op == token.SUB && dec.X == ssa.Value(keysLeft.ph) {
+			// true branch leaves the loop
+			leaves := true
+			for x := b.Succs[0]; ; {
+				if header.Dominates(x) && x != header {
+					in := false
+					for _, p := range header.Preds {
+						if header.Dominates(p) && x.Dominates(p) {
+							in = true
+						}
+					}
+					if in {
+						leaves = false
+					}
+				}
+				break
+			}
+			okExit = leaves
+		}
+	}
+	c.Check(okExit, "S-multi", "opcodeCheckMultiSig/out-of-keys", header.Instrs[0].Pos(), "more signatures left than keys left ends the loop with failure", "the loop no longer stops with failure when more signatures than keys remain")
+	// the pushed result is the loop's success flag: true unless that exit was taken
+	okRes := false
+	for _, b := range fn.Blocks {
+		for _, ins := range b.Instrs {
+			if call, ok := ins.(*ssa.Call); ok {
+				if sc := call.Call.StaticCallee(); sc != nil && sc.Name() == "PushBool" {
+					if ph, isPh := call.Call.Args[1].(*ssa.Phi); isPh && len(ph.Edges) == 2 {
+						vals := map[string]bool{}
+						for _, e := range ph.Edges {
+							if k, isK := e.(*ssa.Const); isK && k.Value != nil {
+								vals[k.Value.ExactString()] = true
+							}
+						}
+						if vals["true"] && vals["false"] {
+							okRes = true
+						}
+					}
+				}
+			}
+		}
+	}
+	c.Check(okRes, "S-multi", "opcodeCheckMultiSig/result", fn.Pos(), "the pushed result is the loop's success flag (true when every signature found its key, false when keys ran out)", "OP_CHECKMULTISIG no longer pushes the matching loop's success flag")
+}
